@@ -367,6 +367,10 @@ func (ex *Exec) jump(st *State, fr *Frame, to *ssa.BasicBlock) {
 	fr.prev = fr.blk
 	fr.blk = to
 	fr.ip = 0
+}
+
+// countVisit charges a symbolic branch into block `to` against the unwinding bound.
+func (ex *Exec) countVisit(st *State, fr *Frame, to *ssa.BasicBlock) {
 	fr.visits[to]++
 	bound := ex.unwind
 	if st.unwind > 0 {
@@ -587,12 +591,23 @@ func (ex *Exec) step(st *State) {
 			unsupported("If on %T", ex.get(st, fr, x.Cond))
 		}
 		tb, fb := fr.blk.Succs[0], fr.blk.Succs[1]
+		if c.Const {
+			// concretely decided branch: not counted against the unwinding bound (maxSteps guards)
+			to := fb
+			if c.U == 1 {
+				to = tb
+			}
+			fr.prev, fr.blk, fr.ip = fr.blk, to, 0
+			return
+		}
 		stT, stF := ex.branch(st, c)
 		if stT != nil {
 			ex.jump(stT, stT.top(), tb)
+			ex.countVisit(stT, stT.top(), tb)
 		}
 		if stF != nil {
 			ex.jump(stF, stF.top(), fb)
+			ex.countVisit(stF, stF.top(), fb)
 		}
 		if stT != nil && stF != nil {
 			// st is stT; queue the other
